@@ -103,7 +103,7 @@ def evaluate(case) -> Verdict:
     tc = bool(case.get("tc")) or any(p["t"] == "tcomment" for p in pieces)
     src = "".join(piece_src(p) for p in pieces)
     want = expected(pieces)
-    o = oc.outcome_of(lambda: env(tc).from_string(src).render(n=1, x=2, y=3))
+    o = oc.render(src, lambda: env(tc).from_string(src), n=1, x=2, y=3)
     if o[0] != "ok":
         v.fail(f"raises:{o[1]}", f"{src!r} -> {oc.short(o)}")
     elif o[1] != want:
